@@ -27,11 +27,12 @@ def SameDrive (e1 e2 : Env) (c1 c2 : DriveCfg) : Prop :=
   e1.driveMedia c1 = e2.driveMedia c2 ∧ c1.view.geom = c2.view.geom ∧ c1.fmt = c2.fmt
 
 /-- the two environments have the same drive numbers attached, in the same
-    order, each presenting the same device; everything else is equal -/
+    order, each presenting the same device; everything else (including the names
+    of the image files, which the extract commands refuse to write over) is equal -/
 def SameDrives (e1 e2 : Env) : Prop :=
   e1.storage.drives.map (·.1) = e2.storage.drives.map (·.1) ∧
   (∀ n c1 c2, e1.storage.lookup n = some c1 → e2.storage.lookup n = some c2 → SameDrive e1 e2 c1 c2) ∧
-  e1.ctx = e2.ctx ∧ e1.ndebug = e2.ndebug ∧ e1.screenCols = e2.screenCols
+  e1.ctx = e2.ctx ∧ e1.ndebug = e2.ndebug ∧ e1.screenCols = e2.screenCols ∧ e1.images = e2.images
 
 /-- **Every command gives the same result** (standard output, success, files
     written, diagnostics flag, or the same failure) in two environments whose
